@@ -12,12 +12,13 @@ The logic part of the property, on the executable model `UmModel/ParserCost.lean
 * **executor** (`src/proxy/executor.rs`, `command.rs`, `slowlog.rs`): every modelled handler
   returns an `HOut`; `panic` and `wedge` (request never answered) are explicit outcomes.
 
-`Cfg` / `HCfg` select the code variant.  `pinned` / `hPinned` is the tree as first pinned (no
-patch), `Cfg.cur` / `HCfg.cur` what the extractor sees in /repo/src on this run.  The full
-statements are proved for the variants with the proposed patches (switches `capRemaining`,
-`maxNesting`, `numkeysBounded`, `blockingEmptyGuard`, `slowlogBoundarySafe`); for every variant
-the `_partial` theorems hold under the stated guards; for the pinned variant the full statements
-are refuted with concrete witnesses (findings F4, F5, F16a, F16b, F16c).
+`Cfg` / `HCfg` select the code variant.  `Cfg.cur` / `HCfg.cur` is what the extractor sees in /repo/src
+on this run: since the fix commits F4 95be7d4, F5 2c9766f, F16a 0d5fc60, F16b 3074c1a, F16c 8a9faf8,
+F16d 23e5d8f, F16e b391770 every switch (`capRemaining`, `maxNesting = 128`, `numkeysBounded`,
+`blockingEmptyGuard`, `slowlogBoundarySafe`, `rangeMapBounded`, `compressedCompact`) is on, and the
+section "the current tree" instantiates the full statements there (`*_cur`).  `pinned` / `hPinned` is
+the tree before those fixes: the `_partial` theorems (any variant, under guards) and the
+`_full_false` witnesses are statements about those switch values and document what the fixes removed.
 -/
 namespace Um.PC.C16
 open Um Um.PC
@@ -336,6 +337,62 @@ theorem C16_rangemap_full_false :
     (rangeMapFrom false false (rangesSeen false true [⟨300, 300⟩, ⟨100, 199⟩])).out = .reply "range-map" ∧
     (rangeMapFrom false false (rangesSeen false true [⟨0, 999999999999999⟩])).steps = 1000000000000000 := by
   decide +kernel
+
+/-! ## the current tree
+
+The statements above are per variant; these instantiate the full ones at what the extractor found
+in /repo/src on this run (`Cfg.cur`, `HCfg.cur`, the generated switches).  They depend on the
+generated values *by value*: reverting one of the fixes (F4 95be7d4, F5 2c9766f, F16a 0d5fc60, F16b 3074c1a,
+F16c 8a9faf8, F16d 23e5d8f, F16e b391770) makes the corresponding proof fail to build. -/
+
+/-- the nesting limit found in the source -/
+def curNesting : Nat := Um.Gen.Hostile.maxNesting.getD 0
+
+theorem C16_alloc_cur (es : Nat) (b : Bytes) :
+    (parseC (Cfg.cur es) b).2.allocBytes (Cfg.cur es) ≤ (es * (curNesting + 1)) * b.length + es * (curNesting + 1) :=
+  C16_alloc (Cfg.cur es) curNesting rfl rfl b
+
+theorem C16_steps_cur (es : Nat) (b : Bytes) :
+    (parseC (Cfg.cur es) b).2.steps ≤ 2 * ((b.length + 1) * (curNesting + 1)) ∧
+    (parseC (Cfg.cur es) b).2.height ≤ curNesting + 1 :=
+  ⟨(C16_steps (Cfg.cur es) b).2.2.2 curNesting rfl, C16_depth_limited (Cfg.cur es) curNesting rfl b⟩
+
+theorem C16_total_stream_cur (es : Nat) (b : Bytes) (hsz : b.length * es ≤ isizeMax) :
+    (stream (Cfg.cur es) b).end ≠ .panicked ∧ (decodeC (Cfg.cur es) b).1.isPanic = false :=
+  ⟨C16_total_stream (Cfg.cur es) rfl b hsz, C16_total_decode (Cfg.cur es) rfl b hsz⟩
+
+theorem C16_total_cur (ar : Bool) :
+    (∀ cmd r, cmd.length + 3 ≤ usizeMax → handleCmd (HCfg.cur ar) (some cmd) = some r → r.out.Good) ∧
+    (∀ r, handleCmd (HCfg.cur ar) none = some r → r.out.Good) ∧
+    (∀ cmd, (handleSlowlogAdd (HCfg.cur ar) cmd).out.Good) := by
+  obtain ⟨h1, h2, h3⟩ := C16_total (HCfg.cur ar) rfl rfl
+  exact ⟨h1, h2, h3 rfl⟩
+
+theorem C16_steps_handlers_cur (ar : Bool) (cmd : Cmd) (r : HRes)
+    (hr : handleCmd (HCfg.cur ar) (some cmd) = some r) : r.steps ≤ 6 * argBytes cmd + 2 * cmd.length + 1 :=
+  C16_steps_handlers (HCfg.cur ar) rfl cmd r hr
+
+/-- `RangeMap::from` as the current tree has it, on the list either SETCLUSTER form delivers -/
+theorem C16_rangemap_cur (textual : Bool) (rs : List Um.Proto.Range) :
+    let seen := rangesSeen Um.Gen.Hostile.compressedCompact textual rs
+    (rangeMapFrom Um.Gen.Hostile.rangeMapBounded Um.Gen.Hostile.overflowChecks seen).out.Good ∧
+    (rangeMapFrom Um.Gen.Hostile.rangeMapBounded Um.Gen.Hostile.overflowChecks seen).steps ≤ seen.length * 16384 := by
+  have h := C16_rangemap Um.Gen.Hostile.overflowChecks (rangesSeen Um.Gen.Hostile.compressedCompact textual rs)
+  exact ⟨h.1, h.2.2⟩
+
+/-- the regression inputs of the seven findings, on the current tree -/
+theorem C16_regressions_cur :
+    (parseC (Cfg.cur 32) (str "*99999999999\r\n")).2.allocBytes (Cfg.cur 32) = 0 ∧
+    (decodeC (Cfg.cur 32) (str "*9223372036854775807\r\n")).1.isPanic = false ∧
+    (parseC (Cfg.cur 32) (nest 200)).2.height = 129 ∧
+    (∀ ar, handleCmd (HCfg.cur ar) (some [bulk "EVAL", bulk "s", bulk "999999999999999999", bulk "k"])
+        = some ⟨.reply "numkeys-too-large", 26⟩) ∧
+    (∀ ar, handleCmd (HCfg.cur ar) (some [bulk "BLPOP", none, bulk "k", bulk "1"]) = some ⟨.reply "invalid-key", 14⟩) ∧
+    (handleSlowlogAdd (HCfg.cur false) [bulk "ECHO", some (List.replicate 99 97 ++ [195, 169, 97])]).out
+        = .reply "recorded" := by
+  refine ⟨by decide +kernel, by decide +kernel, by decide +kernel, ?_, ?_, by decide +kernel⟩
+  · intro ar; cases ar <;> decide +kernel
+  · intro ar; cases ar <;> decide +kernel
 
 /-! ## non-vacuity -/
 
